@@ -120,3 +120,475 @@ End SV.
 Arguments mkview {T}.
 Arguments v_entries {T}.
 Arguments v_total {T}.
+
+(* ===================================================================================================== *)
+(* Lemmas.  The comparator is assumed to be a strict weak order.                                          *)
+(* ===================================================================================================== *)
+(* strict weak order: irreflexive, transitive, and "not greater" is transitive (incomparability is an equivalence).
+   Every lemma below that needs the order takes one argument of this type. *)
+Record strict_weak {T : Type} (ltb : T -> T -> bool) : Prop := mk_strict_weak {
+  swo_irrefl : forall a, ltb a a = false;
+  swo_trans : forall a b c, ltb a b = true -> ltb b c = true -> ltb a c = true;
+  swo_le_trans : forall a b c, ltb b a = false -> ltb c b = false -> ltb c a = false
+}.
+
+Section SVFacts.
+  Variable T : Type.
+  Variable ltb : T -> T -> bool.
+  Hypothesis SWO : strict_weak ltb.
+
+  Lemma lt_irrefl : forall a, ltb a a = false.
+  Proof. apply (swo_irrefl _ SWO). Qed.
+  Lemma lt_trans : forall a b c, ltb a b = true -> ltb b c = true -> ltb a c = true.
+  Proof. apply (swo_trans _ SWO). Qed.
+  Lemma le_trans : forall a b c, ltb b a = false -> ltb c b = false -> ltb c a = false.
+  Proof. apply (swo_le_trans _ SWO). Qed.
+
+  Notation entry := (entry T).
+  Notation sv_merge := (sv_merge T ltb).
+  Notation sv_add := (sv_add T ltb).
+  Notation sv_cum := (sv_cum T).
+  Notation sv_total := (sv_total T).
+  Notation rank_scan := (rank_scan T).
+  Notation rank_pred := (rank_pred T ltb).
+  Notation rank_num := (rank_num T ltb).
+  Notation quant_scan := (quant_scan T).
+  Notation quantile_w := (quantile_w T).
+  Notation cdf_num := (cdf_num T ltb).
+  Notation pmf_num := (pmf_num T ltb).
+  Notation splits_ok := (splits_ok T ltb).
+
+  Definition le (a b : T) : Prop := ltb b a = false.          (* a <= b *)
+  Definition ele (a b : entry) : Prop := le (fst a) (fst b).
+
+  Lemma lt_asym a b : ltb a b = true -> ltb b a = false.
+  Proof.
+    intro H. destruct (ltb b a) eqn:E; auto.
+    pose proof (lt_trans _ _ _ H E) as X. rewrite lt_irrefl in X. discriminate.
+  Qed.
+
+  Lemma le_refl a : le a a.
+  Proof. apply lt_irrefl. Qed.
+
+  Lemma le_tr a b c : le a b -> le b c -> le a c.
+  Proof. unfold le. intros. eapply le_trans; eauto. Qed.
+
+  Lemma lt_le a b : ltb a b = true -> le a b.
+  Proof. apply lt_asym. Qed.
+
+  Lemma le_total a b : le a b \/ le b a.
+  Proof. unfold le. destruct (ltb b a) eqn:E; auto. right. now apply lt_asym. Qed.
+
+  Lemma lt_le_trans a b c : ltb a b = true -> le b c -> ltb a c = true.
+  Proof.
+    unfold le. intros H1 H2. destruct (ltb a c) eqn:E; auto.
+    pose proof (le_trans _ _ _ H2 E) as X. congruence.
+  Qed.
+
+  Lemma le_lt_trans a b c : le a b -> ltb b c = true -> ltb a c = true.
+  Proof.
+    unfold le. intros H1 H2. destruct (ltb a c) eqn:E; auto.
+    pose proof (le_trans _ _ _ E H1) as X. congruence.
+  Qed.
+
+  Definition sorted_e (es : list entry) : Prop := StronglySorted ele es.
+  Definition sorted_t (l : list T) : Prop := StronglySorted le l.
+
+  Definition wsum (p : T -> bool) (es : list entry) : Z :=
+    fold_right (fun e a => (if p (fst e) then snd e else 0) + a) 0 es.
+
+  Definition weights_nonneg (es : list entry) : Prop := Forall (fun e => 0 <= snd e) es.
+  Definition weights_pos (es : list entry) : Prop := Forall (fun e => 0 < snd e) es.
+
+  (* ---------- merge ---------- *)
+  Lemma sv_merge_nil_r a : sv_merge a [] = a.
+  Proof. destruct a; reflexivity. Qed.
+
+  Lemma sv_merge_perm : forall a b, Permutation (sv_merge a b) (a ++ b).
+  Proof.
+    induction a as [|x a IHa]; intro b; [destruct b; reflexivity|].
+    induction b as [|y b IHb]; [simpl; now rewrite app_nil_r|].
+    simpl. destruct (ltb (fst y) (fst x)).
+    - etransitivity; [apply perm_skip, IHb|]. apply (Permutation_middle (x :: a) b y).
+    - simpl. apply perm_skip. apply IHa.
+  Qed.
+
+  Lemma sv_merge_sorted : forall a b, sorted_e a -> sorted_e b -> sorted_e (sv_merge a b).
+  Proof.
+    induction a as [|x a IHa]; intros b Ha Hb; [destruct b; exact Hb|].
+    induction b as [|y b IHb]; [simpl; exact Ha|].
+    simpl. inversion Ha as [|? ? Ha' Fa]; inversion Hb as [|? ? Hb' Fb]; subst.
+    destruct (ltb (fst y) (fst x)) eqn:E.
+    - constructor; [apply IHb; auto|].
+      change ((fix inner (b0 : list entry) : list entry :=
+                 match b0 with [] => x :: a | y0 :: b' => if ltb (fst y0) (fst x) then y0 :: inner b' else x :: sv_merge a b0 end) b)
+        with (sv_merge (x :: a) b).
+      eapply Permutation_Forall; [symmetry; apply sv_merge_perm|].
+      apply Forall_app; split; auto.
+      assert (Hyx : ele y x) by (apply lt_le; exact E).
+      constructor; auto.
+      eapply Forall_impl; [|exact Fa]. intros e He. eapply le_tr; eauto.
+    - constructor; [apply IHa; auto|].
+      eapply Permutation_Forall; [symmetry; apply sv_merge_perm|].
+      apply Forall_app; split; auto.
+      constructor; [exact E|].
+      eapply Forall_impl; [|exact Fb]. intros e He. unfold ele in *. eapply le_tr; eauto.
+  Qed.
+
+  Lemma wsum_app p a b : wsum p (a ++ b) = wsum p a + wsum p b.
+  Proof. induction a; simpl; lia. Qed.
+
+  Lemma wsum_perm p a b : Permutation a b -> wsum p a = wsum p b.
+  Proof. induction 1; simpl; lia. Qed.
+
+  Lemma sv_total_wsum es : sv_total es = wsum (fun _ => true) es.
+  Proof. unfold sv_total, wsum. induction es; simpl; auto. Qed.
+
+  Lemma sv_total_perm a b : Permutation a b -> sv_total a = sv_total b.
+  Proof. rewrite !sv_total_wsum. apply wsum_perm. Qed.
+
+  Lemma sv_total_app a b : sv_total (a ++ b) = sv_total a + sv_total b.
+  Proof. rewrite !sv_total_wsum. apply wsum_app. Qed.
+
+  Lemma map_pair_sorted items w : sorted_t items -> sorted_e (map (fun x => (x, w)) items).
+  Proof.
+    induction 1; simpl; constructor; auto.
+    rewrite Forall_map. eapply Forall_impl; [|eassumption]. intros; assumption.
+  Qed.
+
+  Lemma sv_add_sorted es items w : sorted_e es -> sorted_t items -> sorted_e (sv_add es items w).
+  Proof. intros. apply sv_merge_sorted; auto. now apply map_pair_sorted. Qed.
+
+  Lemma sv_add_perm es items w : Permutation (sv_add es items w) (es ++ map (fun x => (x, w)) items).
+  Proof. apply sv_merge_perm. Qed.
+
+  Lemma weights_pos_perm a b : Permutation a b -> weights_pos a -> weights_pos b.
+  Proof. intros. eapply Permutation_Forall; eauto. Qed.
+
+  (* ---------- cumulative weights ---------- *)
+  Lemma sv_cum_items acc es : map fst (sv_cum acc es) = map fst es.
+  Proof. revert acc; induction es as [|[x w] r IH]; intro acc; simpl; [|rewrite IH]; auto. Qed.
+
+  Lemma sv_cum_length acc es : length (sv_cum acc es) = length es.
+  Proof. revert acc; induction es as [|[x w] r IH]; intro acc; simpl; auto. Qed.
+
+  Lemma sv_cum_last acc es d : es <> [] -> snd (last (sv_cum acc es) d) = acc + sv_total es.
+  Proof.
+    revert acc; induction es as [|[x w] r IH]; intros acc H; [congruence|].
+    destruct r as [|[x' w'] r'].
+    - simpl. unfold sv_total; simpl. lia.
+    - specialize (IH (acc + w) ltac:(discriminate)).
+      simpl in IH |- *. rewrite IH. unfold sv_total; simpl. lia.
+  Qed.
+
+  (* the scan for the first entry satisfying an upward-closed predicate returns the weight below it *)
+  Lemma rank_scan_wsum (p : T -> bool) : forall es acc,
+    sorted_e es -> (forall a b, p a = true -> le a b -> p b = true) ->
+    rank_scan p acc (sv_cum acc es) = acc + wsum (fun y => negb (p y)) es.
+  Proof.
+    induction es as [|[x w] r IH]; intros acc Hs Hp; simpl; [lia|].
+    inversion Hs as [|? ? Hs' Fr]; subst.
+    destruct (p x) eqn:E; simpl.
+    - (* everything after also satisfies p: contributes nothing *)
+      assert (Z0 : wsum (fun y => negb (p y)) r = 0).
+      { clear IH Hs Hs'. induction r as [|e r IHr]; simpl; auto.
+        inversion Fr; subst. rewrite (Hp x (fst e) E) by assumption. simpl. rewrite IHr; auto. }
+      lia.
+    - rewrite IH; auto. lia.
+  Qed.
+
+  Lemma rank_pred_up x incl : forall a b, rank_pred x incl a = true -> le a b -> rank_pred x incl b = true.
+  Proof.
+    destruct incl; simpl; intros a b H L.
+    - eapply lt_le_trans; eauto.
+    - apply negb_true_iff in H. apply negb_true_iff. eapply le_tr; eauto.
+  Qed.
+
+  (* what get_rank computes: the total weight of the entries <= x (inclusive) resp. < x (exclusive) *)
+  Definition below (x : T) (incl : bool) (y : T) : bool := if incl then negb (ltb x y) else ltb y x.
+
+  Theorem rank_num_spec es x incl : sorted_e es ->
+    rank_num (sv_finish T es) x incl = wsum (below x incl) es.
+  Proof.
+    intro Hs. unfold rank_num, sv_finish; simpl.
+    rewrite rank_scan_wsum; [|assumption|apply rank_pred_up].
+    rewrite Z.add_0_l. unfold wsum. clear Hs. induction es as [|e r IH]; simpl; auto.
+    rewrite IH. destruct incl; simpl; auto. now rewrite negb_involutive.
+  Qed.
+
+  Lemma wsum_mono p q es : weights_nonneg es -> (forall y, p y = true -> q y = true) -> wsum p es <= wsum q es.
+  Proof.
+    intros Hw Hpq. induction Hw as [|e r He Hr IH]; simpl; [lia|].
+    destruct (p (fst e)) eqn:E; [rewrite (Hpq _ E); lia|]. destruct (q (fst e)); lia.
+  Qed.
+
+  Lemma wsum_nonneg p es : weights_nonneg es -> 0 <= wsum p es.
+  Proof. induction 1; simpl; [lia|]. destruct (p (fst x)); lia. Qed.
+
+  Lemma wsum_le_total p es : weights_nonneg es -> wsum p es <= sv_total es.
+  Proof. intro H. rewrite sv_total_wsum. apply wsum_mono; auto. Qed.
+
+  Theorem rank_monotone es x y incl : sorted_e es -> weights_nonneg es -> le x y ->
+    rank_num (sv_finish T es) x incl <= rank_num (sv_finish T es) y incl.
+  Proof.
+    intros Hs Hw L. rewrite !rank_num_spec by assumption. apply wsum_mono; auto.
+    intro z. unfold below. destruct incl.
+    - rewrite !negb_true_iff. intro H. eapply le_tr; [exact H|exact L].
+    - intro H. eapply lt_le_trans; eauto.
+  Qed.
+
+  Theorem rank_incl_ge_excl es x : sorted_e es -> weights_nonneg es ->
+    rank_num (sv_finish T es) x false <= rank_num (sv_finish T es) x true.
+  Proof.
+    intros Hs Hw. rewrite !rank_num_spec by assumption. apply wsum_mono; auto.
+    intro z. unfold below. intro H. apply negb_true_iff. now apply lt_asym.
+  Qed.
+
+  (* strictly below x inclusive <= exclusive at a strictly larger point *)
+  Theorem rank_incl_le_excl_later es x y : sorted_e es -> weights_nonneg es -> ltb x y = true ->
+    rank_num (sv_finish T es) x true <= rank_num (sv_finish T es) y false.
+  Proof.
+    intros Hs Hw L. rewrite !rank_num_spec by assumption. apply wsum_mono; auto.
+    intro z. unfold below. rewrite negb_true_iff. intro H. eapply le_lt_trans; eauto.
+  Qed.
+
+  Theorem rank_bounds es x incl : sorted_e es -> weights_nonneg es ->
+    0 <= rank_num (sv_finish T es) x incl <= v_total (sv_finish T es).
+  Proof.
+    intros Hs Hw. rewrite rank_num_spec by assumption. simpl. split; [now apply wsum_nonneg|now apply wsum_le_total].
+  Qed.
+
+  (* ---------- quantiles ---------- *)
+  Lemma quant_scan_in p x0 es : In (quant_scan p x0 es) (x0 :: map fst es).
+  Proof.
+    revert x0; induction es as [|[x c] r IH]; intro x0; simpl; auto.
+    destruct (p c); auto. destruct (IH x) as [H|H]; auto.
+  Qed.
+
+  Theorem quantile_in_view v w incl q : quantile_w v w incl = Some q -> In q (map fst (v_entries v)).
+  Proof.
+    unfold quantile_w. destruct (v_entries v) as [|[x c] r] eqn:E; [discriminate|].
+    intro H; inversion H; subst; clear H.
+    simpl. destruct (quant_pred w incl c); auto.
+    destruct (quant_scan_in (quant_pred w incl) x r) as [H|H]; auto.
+  Qed.
+
+  Theorem quantile_empty_rejected v w incl : v_entries v = [] -> quantile_w v w incl = None.
+  Proof. unfold quantile_w. now intros ->. Qed.
+
+  Theorem quantile_nonempty_answers v w incl : v_entries v <> [] -> exists q, quantile_w v w incl = Some q.
+  Proof. unfold quantile_w. destruct (v_entries v) as [|[x c] r]; [congruence|]. eauto. Qed.
+
+  Lemma quant_scan_mono (p1 p2 : Z -> bool) : (forall c, p2 c = true -> p1 c = true) ->
+    forall es x0, sorted_t (x0 :: map fst es) -> le (quant_scan p1 x0 es) (quant_scan p2 x0 es).
+  Proof.
+    intros Hp. induction es as [|[x c] r IH]; intros x0 Hs; simpl; [apply le_refl|].
+    inversion Hs as [|? ? Hs' F0]; subst. simpl in Hs'.
+    destruct (p1 c) eqn:E1.
+    - destruct (p2 c); [apply le_refl|].
+      destruct (quant_scan_in p2 x r) as [H|H]; [rewrite <- H; apply le_refl|].
+      inversion Hs' as [|? ? ? Fx]; subst. rewrite Forall_forall in Fx. now apply Fx.
+    - destruct (p2 c) eqn:E2; [rewrite (Hp _ E2) in E1; discriminate|]. now apply IH.
+  Qed.
+
+  Lemma sorted_e_items es : sorted_e es -> sorted_t (map fst es).
+  Proof.
+    induction 1; simpl; constructor; auto. rewrite Forall_map. assumption.
+  Qed.
+
+  Lemma sorted_items_e es : sorted_t (map fst es) -> sorted_e es.
+  Proof.
+    induction es as [|e r IH]; intro H; [constructor|].
+    simpl in H. inversion H as [|? ? H1 F]; subst. constructor; [now apply IH|].
+    rewrite Forall_map in F. exact F.
+  Qed.
+
+  (* the cumulative entries keep the order of the items *)
+  Lemma sv_cum_sorted acc es : sorted_e es -> sorted_e (sv_cum acc es).
+  Proof. intro H. apply sorted_items_e. rewrite sv_cum_items. now apply sorted_e_items. Qed.
+
+  (* a larger weight (normalized rank) never gives a smaller quantile *)
+  Theorem quantile_monotone v w1 w2 incl q1 q2 : sorted_e (v_entries v) -> w1 <= w2 ->
+    quantile_w v w1 incl = Some q1 -> quantile_w v w2 incl = Some q2 -> le q1 q2.
+  Proof.
+    unfold quantile_w. intros Hs Hw. destruct (v_entries v) as [|[x c] r] eqn:E; [discriminate|].
+    intros [= <-] [= <-].
+    apply (quant_scan_mono (quant_pred w1 incl) (quant_pred w2 incl)) with (es := (x, c) :: r) (x0 := x).
+    - intro c0. unfold quant_pred. destruct incl; rewrite ?negb_true_iff, ?Z.ltb_lt, ?Z.ltb_ge; lia.
+    - apply sorted_e_items in Hs. simpl in Hs. constructor; auto.
+      constructor; [apply le_refl|]. inversion Hs; subst; assumption.
+  Qed.
+
+  (* inclusive quantile <= exclusive quantile for the same weight *)
+  Theorem quantile_incl_le_excl v w q1 q2 : sorted_e (v_entries v) ->
+    quantile_w v w true = Some q1 -> quantile_w v w false = Some q2 -> le q1 q2.
+  Proof.
+    unfold quantile_w. intros Hs. destruct (v_entries v) as [|[x c] r] eqn:E; [discriminate|].
+    intros [= <-] [= <-].
+    apply (quant_scan_mono (quant_pred w true) (quant_pred w false)) with (es := (x, c) :: r) (x0 := x).
+    - intro c0. unfold quant_pred. rewrite ?negb_true_iff, ?Z.ltb_lt, ?Z.ltb_ge; lia.
+    - apply sorted_e_items in Hs. simpl in Hs. constructor; auto.
+      constructor; [apply le_refl|]. inversion Hs; subst; assumption.
+  Qed.
+
+  (* ---------- CDF / PMF ---------- *)
+  Theorem cdf_empty_rejected v sp incl : v_entries v = [] -> cdf_num v sp incl = None.
+  Proof. unfold cdf_num. now intros ->. Qed.
+
+  Theorem cdf_bad_splits_rejected v sp incl : splits_ok sp = false -> cdf_num v sp incl = None.
+  Proof. unfold cdf_num. intros ->. now destruct (v_entries v). Qed.
+
+  Theorem pmf_bad_splits_rejected v sp incl : splits_ok sp = false -> pmf_num v sp incl = None.
+  Proof. unfold pmf_num. intro H. now rewrite cdf_bad_splits_rejected. Qed.
+
+  Theorem cdf_is_rank v sp incl c : cdf_num v sp incl = Some c ->
+    c = map (fun x => rank_num v x incl) sp ++ [v_total v].
+  Proof.
+    unfold cdf_num. destruct (v_entries v); [discriminate|]. destruct (splits_ok sp); [|discriminate].
+    now intros [= <-].
+  Qed.
+
+  Lemma last_cons_indep {A} : forall (l : list A) a d d', last (a :: l) d = last (a :: l) d'.
+  Proof. induction l as [|b l IH]; intros a d d'; [reflexivity|]. exact (IH b d d'). Qed.
+
+  Lemma diffs_sum : forall l prev, fold_right Z.add 0 (diffs prev l) = last l prev - prev.
+  Proof.
+    induction l as [|c r IH]; intros prev; [simpl; lia|].
+    cbn [diffs fold_right]. rewrite (IH c). destruct r as [|z r']; [simpl; lia|].
+    rewrite (last_cons_indep r' z c prev). change (last (c :: z :: r') prev) with (last (z :: r') prev). lia.
+  Qed.
+
+  (* the PMF masses sum to the total weight (i.e. to one after division by n) *)
+  Theorem pmf_sums_to_total v sp incl p : pmf_num v sp incl = Some p ->
+    fold_right Z.add 0 p = v_total v.
+  Proof.
+    unfold pmf_num. destruct (cdf_num v sp incl) as [c|] eqn:E; [|discriminate].
+    intros [= <-]. rewrite (diffs_sum c 0). apply cdf_is_rank in E. subst c.
+    rewrite last_last. lia.
+  Qed.
+
+  Lemma diffs_nonneg : forall l prev, StronglySorted Z.le (prev :: l) -> Forall (fun z => 0 <= z) (diffs prev l).
+  Proof.
+    induction l as [|c r IH]; intros prev H; simpl; constructor.
+    - inversion H as [|? ? ? F]; subst. inversion F; subst. lia.
+    - apply IH. inversion H; subst; assumption.
+  Qed.
+
+  Lemma splits_ok_sorted sp : splits_ok sp = true -> sorted_t sp.
+  Proof.
+    induction sp as [|x r IH]; intro H; [constructor|].
+    destruct r as [|y r'].
+    - constructor; constructor.
+    - simpl in H. apply andb_true_iff in H as [H1 H2]. specialize (IH H2).
+      constructor; auto. constructor; [now apply lt_le|].
+      inversion IH as [|? ? ? F]; subst. eapply Forall_impl; [|exact F].
+      intros a Ha. eapply le_tr; [apply lt_le; exact H1|exact Ha].
+  Qed.
+
+  (* the CDF is non-decreasing and every PMF mass is non-negative *)
+  Theorem cdf_monotone es sp incl c : sorted_e es -> weights_nonneg es ->
+    cdf_num (sv_finish T es) sp incl = Some c -> StronglySorted Z.le (0 :: c).
+  Proof.
+    intros Hs Hw H. pose proof H as H0. apply cdf_is_rank in H. subst c.
+    unfold cdf_num in H0. destruct (v_entries (sv_finish T es)); [discriminate|].
+    destruct (splits_ok sp) eqn:Hsp; [|discriminate]. clear H0.
+    apply splits_ok_sorted in Hsp.
+    constructor.
+    - induction Hsp as [|x r Hr IH Fx]; simpl.
+      + constructor; constructor.
+      + constructor; auto.
+        apply Forall_app; split.
+        * rewrite Forall_map. eapply Forall_impl; [|exact Fx]. intros y Hy. now apply rank_monotone.
+        * constructor; [|constructor]. apply rank_bounds; auto.
+    - apply Forall_app; split.
+      + rewrite Forall_map. apply Forall_forall. intros x _. apply rank_bounds; auto.
+      + constructor; [|constructor]. simpl. rewrite sv_total_wsum. apply wsum_nonneg; auto.
+  Qed.
+
+  Theorem pmf_nonneg es sp incl p : sorted_e es -> weights_nonneg es ->
+    pmf_num (sv_finish T es) sp incl = Some p -> Forall (fun z => 0 <= z) p.
+  Proof.
+    intros Hs Hw. unfold pmf_num. destruct (cdf_num (sv_finish T es) sp incl) as [c|] eqn:E; [|discriminate].
+    intros [= <-]. apply diffs_nonneg. eapply cdf_monotone; eauto.
+  Qed.
+
+  (* over the rationals: the PMF sums to one *)
+  Theorem pmf_sums_to_one v sp incl p : 0 < v_total v -> pmf_num v sp incl = Some p ->
+    (fold_right Qplus 0 (map (fun z => inject_Z z / inject_Z (v_total v)) p) == 1)%Q.
+  Proof.
+    intros Hpos H. apply pmf_sums_to_total in H.
+    assert (G : forall l, (fold_right Qplus 0 (map (fun z => inject_Z z / inject_Z (v_total v)) l)
+                           == inject_Z (fold_right Z.add 0%Z l) / inject_Z (v_total v))%Q).
+    { induction l as [|a l IH]; simpl.
+      - unfold Qdiv. ring.
+      - rewrite IH, inject_Z_plus. field. intro X. unfold Qeq in X. simpl in X. lia. }
+    rewrite G, H. field. intro X. unfold Qeq in X. simpl in X. lia.
+  Qed.
+
+  (* ---------- total weight ---------- *)
+  Theorem view_last_is_total es d : es <> [] -> snd (last (v_entries (sv_finish T es)) d) = v_total (sv_finish T es).
+  Proof. intro H. simpl. rewrite sv_cum_last by assumption. lia. Qed.
+
+  Theorem view_sorted es : sorted_e es -> sorted_t (map fst (v_entries (sv_finish T es))).
+  Proof. intro H. simpl. rewrite sv_cum_items. now apply sorted_e_items. Qed.
+
+  (* ---------- exactness when every weight is one (nothing compacted) ---------- *)
+  Definition count (p : T -> bool) (l : list T) : Z := Z.of_nat (length (filter p l)).
+
+  Lemma wsum_unit p items : wsum p (map (fun x => (x, 1)) items) = count p items.
+  Proof.
+    unfold count. induction items as [|x r IH]; simpl; auto.
+    rewrite IH. destruct (p x); simpl length; lia.
+  Qed.
+
+  Theorem exact_rank items x incl : sorted_t items ->
+    rank_num (sv_finish T (map (fun y => (y, 1)) items)) x incl = count (below x incl) items.
+  Proof.
+    intro Hs. rewrite rank_num_spec by now apply map_pair_sorted. apply wsum_unit.
+  Qed.
+
+  Lemma quant_scan_unit_incl : forall items acc x0 w, acc < w <= acc + Z.of_nat (length items) ->
+    quant_scan (quant_pred w true) x0 (sv_cum acc (map (fun y => (y, 1)) items))
+    = nth (Z.to_nat (w - acc - 1)) items x0.
+  Proof.
+    induction items as [|y r IH]; intros acc x0 w H; simpl in *; [lia|].
+    destruct (Z.ltb_spec (acc + 1) w); simpl.
+    - rewrite IH by lia. replace (Z.to_nat (w - acc - 1)) with (S (Z.to_nat (w - (acc + 1) - 1))) by lia.
+      simpl. apply nth_indep. lia.
+    - replace (w - acc - 1) with 0 by lia. reflexivity.
+  Qed.
+
+  Lemma quant_scan_unit_excl : forall items acc x0 w, acc <= w < acc + Z.of_nat (length items) ->
+    quant_scan (quant_pred w false) x0 (sv_cum acc (map (fun y => (y, 1)) items))
+    = nth (Z.to_nat (w - acc)) items x0.
+  Proof.
+    induction items as [|y r IH]; intros acc x0 w H; simpl in *; [lia|].
+    destruct (Z.ltb_spec w (acc + 1)); simpl.
+    - replace (w - acc) with 0 by lia. reflexivity.
+    - rewrite IH by lia. replace (Z.to_nat (w - acc)) with (S (Z.to_nat (w - (acc + 1)))) by lia.
+      simpl. apply nth_indep. lia.
+  Qed.
+
+  (* inclusive: the w-th smallest item (1-based); exclusive: the item at 0-based position w *)
+  Theorem exact_quantile_incl items w d : 1 <= w <= Z.of_nat (length items) ->
+    quantile_w (sv_finish T (map (fun y => (y, 1)) items)) w true = Some (nth (Z.to_nat (w - 1)) items d).
+  Proof.
+    intro H. unfold quantile_w, sv_finish; cbn [v_entries].
+    destruct items as [|y r]; [simpl in H; lia|].
+    change (sv_cum 0 (map (fun y0 => (y0, 1)) (y :: r))) with ((y, 0 + 1) :: sv_cum (0 + 1) (map (fun y0 => (y0, 1)) r)).
+    cbv iota beta. f_equal.
+    change ((y, 0 + 1) :: sv_cum (0 + 1) (map (fun y0 => (y0, 1)) r)) with (sv_cum 0 (map (fun y0 => (y0, 1)) (y :: r))).
+    rewrite quant_scan_unit_incl by lia. replace (w - 0 - 1) with (w - 1) by lia. apply nth_indep. lia.
+  Qed.
+
+  Theorem exact_quantile_excl items w d : 0 <= w < Z.of_nat (length items) ->
+    quantile_w (sv_finish T (map (fun y => (y, 1)) items)) w false = Some (nth (Z.to_nat w) items d).
+  Proof.
+    intro H. unfold quantile_w, sv_finish; cbn [v_entries].
+    destruct items as [|y r]; [simpl in H; lia|].
+    change (sv_cum 0 (map (fun y0 => (y0, 1)) (y :: r))) with ((y, 0 + 1) :: sv_cum (0 + 1) (map (fun y0 => (y0, 1)) r)).
+    cbv iota beta. f_equal.
+    change ((y, 0 + 1) :: sv_cum (0 + 1) (map (fun y0 => (y0, 1)) r)) with (sv_cum 0 (map (fun y0 => (y0, 1)) (y :: r))).
+    rewrite quant_scan_unit_excl by lia. replace (w - 0) with w by lia. apply nth_indep. lia.
+  Qed.
+End SVFacts.
